@@ -8,7 +8,8 @@ META = dict(
     text="For each of the 7 rules x field selection {all, one} (plus, for change and update, logs with two - thorough also three - loggees, "
          "each with its own write operation): breadth-first search, with canonical-state dedupe, over every history "
          "of up to 6 (quick) / 12 (thorough) operations after START from the alphabet {RUN, tick, write same value, write different "
-         "value, write other field, push to deck / append to streak list (a proper entry, or the next of None, 0, '', {}, []), STOP+START "
+         "value, write other field, push to deck / append to streak list (a proper entry by a producer that re-fetches the container from the "
+         "share each time, the same by a producer holding the container it obtained once, or the next of None, 0, '', {}, []), STOP+START "
          "restart (once)}, at most one logger send per tick "
          "as the Skedder does, writes before or after the logger in a tick.  After every operation, and again after an appended STOP, "
          "the log file content on the in-memory file system must equal header + the records the statement promises; queue rules must "
@@ -46,7 +47,9 @@ MULTI = dict(two=["y"], three=["y", "z"])       # field selections with further 
 
 def alphabet(rule, sel="all"):
     if rule in QUEUE:
-        return ["R", "T", "q", "j", "wb", "X"]      # j: push the next junk element (cycles through JUNK)
+        # q: producer re-fetches the container from the share for every append; qa: producer appends
+        # through the reference it obtained once, before the first drain; j: next junk element (cycles)
+        return ["R", "T", "q", "qa", "j", "wb", "X"]
     extra = ["%sd" % t for t in MULTI.get(sel, [])]  # yd / zd: write a different value to that loggee
     return ["R", "T", "ws", "wd", "wb"] + extra + ["X"]
 
@@ -189,7 +192,7 @@ class Ref:
             self.ov[op[0]] = (self.ov[op[0]] + 1) % 3
             self.pending = True
             self.wstamp = self.now
-        elif op == "q":
+        elif op in ("q", "qa"):
             self.npush += 1
             n = self.npush
             self.queue.append(dict(a=n, b=10 * n) if self.rule == "deck" else n)
@@ -250,6 +253,8 @@ class Impl:
                               more_loggees=[(t, "mc." + t, None, [("a", 0)]) for t in MULTI.get(sel, [])])
         self.npush = 0
         self.njunk = 0
+        # the producer's own reference to the queue object, taken once before anything is drained
+        self.alias = self.w.share.deck if rule == "deck" else self.w.share["a"] if rule == "streak" else None
 
     def apply(self, op):
         w = self.w
@@ -274,6 +279,12 @@ class Impl:
             if self.rule == "deck":
                 return sh.push(self.odict([("a", n), ("b", 10 * n)]))
             return sh["a"].append(n)
+        if op == "qa":
+            self.npush += 1
+            n = self.npush
+            if self.rule == "deck":
+                return self.alias.push(self.odict([("a", n), ("b", 10 * n)]))
+            return self.alias.append(n)
         if op in ("yd", "zd"):
             o = w.shares["mc." + op[0]]
             return o.update(a=(o["a"] + 1) % 3)
@@ -291,12 +302,20 @@ class Impl:
             return w.start()
         raise core.BrokenCheck("unknown op %r" % op)
 
+    def current(self):
+        """The queue object the share holds now."""
+        return self.w.share.deck if self.rule == "deck" else self.w.share["a"] if self.rule == "streak" else None
+
     def queue(self):
-        if self.rule == "deck":
-            return list(self.w.share.deck)
-        if self.rule == "streak":
-            return list(self.w.share["a"])
-        return []
+        """Everything still queued: in the object the producer holds and, should the share
+        hold a different object by now, in that one too."""
+        if self.alias is None:
+            return []
+        cur = self.current()
+        out = list(self.alias)
+        if cur is not self.alias:
+            out += list(cur) if isinstance(cur, (list, type(self.alias))) else [cur]
+        return out
 
     def queue_len(self):
         return len(self.queue())
@@ -317,6 +336,7 @@ class Impl:
         a = sh["a"]
         return (w.logger.status, w.logger.desire, age(w.log.stamp), age(sh.stamp), age(w.logger.stamp),
                 tuple(kind_of(e) for e in a) if isinstance(a, list) else a, sh["b"],
+                None if self.alias is None else (self.current() is self.alias, tuple(kind_of(e) for e in self.alias)),
                 tuple(kind_of(e) for e in sh.deck), lasts,
                 tuple((n, o["a"], age(o.stamp)) for n, o in sorted(w.shares.items()) if o is not sh),
                 w.log.first, w.log.file is not None and not w.log.file.closed)
@@ -370,6 +390,7 @@ def diverge(node, hist, part, stage):
                   how="LogWorld(fs, rule, fields, share a/b) ; START/R/STOP = logger.runner.send(...) ; T = store.changeStamp(+tick) ; "
                       "ws/wd/wb = share.update(a=same / a=(a+1)%3 / b=(b+1)%3) ; yd/zd = the same on the further loggee shares mc.y / mc.z "
                       "(fields=two/three: log.addLoggee(tag='y', loggee='mc.y'), ...) ; q = deck push(odict(a=n,b=10n)) / list append(n) ; "
+                      "qa = the same through the reference to share.deck / share['a'] taken once right after construction ; "
                       "j:<v> = deck push(v) / list append(v) for v in None, 0, '', {}, [] ; j = the next of these in that order ; "
                       "X = STOP, T, START")
     if node.error:
@@ -473,7 +494,7 @@ def work_grid(item):
     import itertools
     core.use_repo()
     part = core.Part()
-    elems = ["q"] + ["j:" + j for j in JUNK]
+    elems = ["q", "qa"] + ["j:" + j for j in JUNK]
     with core.watchdog(600):
         for n in range(1, maxlen + 1):
             for seq in itertools.product(elems, repeat=n):
@@ -489,11 +510,11 @@ def work_grid(item):
                         if diverge(node, done, part, "grid"):
                             bad = True
                             break
-                    nj = sum(1 for e in seq if e != "q")
+                    nj = sum(1 for e in seq if e not in ("q", "qa"))
                     part.outcome("%s:grid %s" % (rule, "violation" if bad else
                                                  "no junk" if nj == 0 else "all junk" if nj == n else "junk between entries"))
                     part.nontrivial((rule, sel, seq, cut))
-                    if not bad and n == maxlen and cut == 1 and seq[:3] == ("q", "j:None", "q") and len(part.samples) < 1:
+                    if not bad and n == maxlen and cut == 1 and seq[:3] == ("q", "j:None", "qa") and len(part.samples) < 1:
                         part.sample(dict(rule=rule, fields=sel, history=hist, file=node.impl.content()))
     part.evaluations = part.traces
     part.notes["grid_histories"] = sum(len(elems) ** n * n for n in range(1, maxlen + 1))
@@ -554,6 +575,8 @@ def run():
         "not, is one record formatted with %s",
         "fields=two/three: the log has loggees x (fields a, b), y (and z), columns x.a x.b y (z); 'change' compares every logged column "
         "with its last logged value, 'update' counts a stamped write to any loggee",
+        "queue rules: 'the queue' is the container object the producer put into the share (streak: the list in field a, deck: share.deck); "
+        "a producer may keep its reference to it, so after every run that same object must be empty and later appends through it must be logged",
         "canonical state = logger status/desire, ages (in ticks) of log, share and logger stamps, share values, queue contents by element kind, last-logged values, "
         "file-open flags, plus the reference's own state; histories reaching the same canonical state are expanded once",
     ]
